@@ -565,7 +565,15 @@ def _is_optional_anyof(field: AnyOf) -> bool:
 
 def _extract_non_nonefield_from_optional(field: AnyOf) -> Field:
     fields = field.get_fields()
-    return fields[0] if fields[1].__class__ is NoneField else fields[0]
+    return fields[0] if fields[1].__class__ is NoneField else fields[1]
+
+
+def _leading_option(field: AnyOf) -> Field:
+    return (
+        _extract_non_nonefield_from_optional(field)
+        if _is_optional_anyof(field)
+        else field.get_fields()[0]
+    )
 
 
 @lru_cache(maxsize=128)
@@ -627,12 +635,12 @@ def _get_enum_mapping(cls):
         if isinstance(v, Enum) and getattr(v, "_is_enum", False)
     }
     optionals =  {
-        k: getattr(getattr(v, "_fields")[0], "_enum_class")
+        k: getattr(_leading_option(v), "_enum_class")
         for k, v in cls.get_all_fields_by_name().items()
         if isinstance(v, AnyOf)
         and getattr(v, "_is_optional", False)
-        and isinstance(getattr(v, "_fields")[0], Enum)
-        and getattr(getattr(v, "_fields")[0], "_is_enum", False)
+        and isinstance(_leading_option(v), Enum)
+        and getattr(_leading_option(v), "_is_enum", False)
     }
     return {**without_optionals, **optionals}
 
